@@ -89,7 +89,7 @@ class C16(Prop):
         r = rng.random()
         typ = rng.choice(["file", "file", "primitive"])
         if r < 0.3:
-            return {"kind": "pipeline", "type": typ, "n": rng.randrange(1, 6)}
+            return {"kind": "pipeline", "type": rng.choice([typ, "file2"]), "n": rng.randrange(1, 6)}
         if r < 0.5:
             it = rng.randrange(0, 7)
             return {"kind": "loop", "type": typ, "pre": rng.randrange(0, 2), "iters": it,
@@ -111,6 +111,9 @@ class C16(Prop):
             if i % 11 != 0:  # every 11th: failure-free (validates the denotation against the real engine)
                 for st, tag in rng.sample(jobs, min(len(jobs), rng.choice([1, 1, 2, 2, 3, 4]))):
                     kind = rng.choice(["soft", "failstop"]) if (st, tag) in solo else "soft"
+                    if shape["type"] == "file2":
+                        # at most one partial loss (only the secondary files disappear) per case, the other faults soft
+                        kind = "partial" if not faults and rng.random() < 0.7 else "soft"
                     # /join has one transfer step per input port: a loss during its transfer phase makes the sibling
                     # transfer steps fail too and start concurrent recoveries of the SAME job (timing dependent, C19)
                     phases = [p for p in PHASES if not (st == "/join" and kind == "failstop" and p == "transfer")]
@@ -118,7 +121,7 @@ class C16(Prop):
                     faults.append([st, tag, ph, kind, rng.choice([1, 1, 2, 3])])
                     if rng.random() < 0.2:   # the same job also fails in another phase
                         faults.append([st, tag, rng.choice([p for p in phases if p != ph]), kind, 1])
-            if any(f[3] == "failstop" for f in faults):
+            if any(f[3] in ("failstop", "partial") for f in faults):
                 # a loss makes the recovery re-run the concurrent jobs side by side; if those fail too, several recoveries
                 # overlap and the outcome depends on timing (property C19): keep only the faults of jobs that run alone
                 conc = "/cnt" if shape["kind"] == "loop" else None
@@ -130,6 +133,16 @@ class C16(Prop):
             slack = rng.choice([0, 1, 2, 20, 20])
             cases.append({"f": "run", "manager": "rollback", "limit": mx + 1 + slack, "slack": slack, "shape": shape,
                           "faults": faults, "sched": rng.randrange(1 << 30) if rng.random() < 0.5 else None})
+        # loops with two-digit iteration indexes: a failure (with or without loss) at iteration 9, 10 or 11, whose rollback
+        # spans tags 0.9 / 0.10 / 0.11 (beyond the 0..6 iterations of the property's quantifier; added after the
+        # lexicographic-order defect fixed in /repo, see known/C16.txt)
+        for _ in range({"quick": 3, "thorough": 40, "extended": 10}[tier]):
+            it = rng.choice([11, 12, 12])
+            tag = f"0.{rng.choice([9, 10, 10, it - 1])}"
+            shape = {"kind": "loop", "type": "file", "pre": rng.randrange(0, 2), "iters": it, "post": 0}
+            cases.append({"f": "run", "manager": "rollback", "limit": 22, "slack": 20, "shape": shape,
+                          "faults": [["/body", tag, rng.choice(PHASES), rng.choice(["soft", "failstop", "failstop"]), 1]],
+                          "sched": rng.randrange(1 << 30) if rng.random() < 0.5 else None})
         # a scatter element that fails LAST (after all its siblings completed) with loss of data: its own rollback, then the
         # consumer of the gather discovers the siblings' outputs are gone and rolls the scatter back for the other elements
         # (two sequential recoveries restoring complementary sets of element tags, multi-digit indexes included)
@@ -214,7 +227,10 @@ class C16(Prop):
         for e in o["trace"]:
             if e[0] == "done" and e[1] in idx:
                 evs.append(f"Exec {idx[e[1]]}")
-            elif e[0] == "wipe" and c["shape"]["type"] == "file":
+            elif e[0] == "wipe" and c["shape"]["type"] in ("file", "file2"):
+                evs.extend(f"Lose {i}" for i in vol)
+            elif e[0] == "wipe-partial" and c["shape"]["type"] == "file2":
+                # a two-path token is available iff ALL its paths have a surviving copy: losing the secondary files loses it
                 evs.extend(f"Lose {i}" for i in vol)
         completed = o["result"] == "completed"
         vals = [t for t in o["out_tokens"] if "term" not in t]
@@ -226,7 +242,10 @@ class C16(Prop):
         return bool(c["faults"])
 
     def signature(self, c, o, clause):
-        kinds = "failstop" if any(f[3] == "failstop" for f in c["faults"]) else ("soft" if c["faults"] else "none")
+        kinds = "failstop" if any(f[3] in ("failstop", "partial") for f in c["faults"]) else ("soft" if c["faults"] else "none")
+        part = sorted({f[2] for f in c["faults"] if f[3] == "partial"})
+        if part:
+            kinds = "partial@" + "+".join(part)
         jobs = [(f[0], f[1]) for f in c["faults"]]
         if clause == "outputs-differ" and c["shape"]["kind"] == "scatter" and len(set(jobs)) < len(jobs):
             kinds += "+multiphase"   # some job fails in two different phases
